@@ -99,3 +99,10 @@ claimed["C12"] = (
     "GetDefaults() is not compared; inputs with keys that collide after normalisation are excluded from determinism; distinct recursive instances are not compared with each other (C15 known finding)",
     "DESIGN.md §3 C12",
 )
+claimed["C14"] = (
+    "exploration",
+    "runtime metamorphic monitor: scope with references vs the same scope with references mechanically inlined by the harness' own lexical resolution; link-state monitor over references enumerated through public accessors around every ApplyNamespace; supervised recursion probes",
+    "Generated non-recursive scope trees (nested scopes with colliding IDs, references under properties/lists/maps/one-ofs, up to two external namespaces applied in every order, external objects shadowing local IDs), the scope rebuilt from its own description, and the inlined comparison schema are run on the same inputs: verdicts and unserialized values must coincide and agree with the reference interpreter. Before, between and after the ApplyNamespace calls ValidateReferences()==nil must hold exactly when all enumerated references report ObjectReady(), and references of other namespaces must keep state and target. Hand-written recursive / mutually recursive / rho-shaped scopes are driven with finite inputs of depth 1..500 and non-map values under process supervision.",
+    "inlining is only defined for non-recursive graphs; namespaced references are not generated directly under a one-of; external namespace objects have no references of their own",
+    "DESIGN.md §3 C14",
+)
